@@ -23,8 +23,12 @@ ASSUMPTIONS = ['serials of the outstanding calls are concrete (allocated by the 
                'callbacks attached by the harness do not re-enter the connection']
 STUBS = ['FakeTransport', 'twisted task.Clock as reactor (client.reactor)']
 
-BODIES = [(None, None), ('i', [7]), ('(ii)', [[1, 2]]), ('ii', [1, 2]), ('s', ['txt']), ('ai', [[1, 2, 3]])]
-RETSIGS = ['__nocheck__', '', 'i', 's', '(ii)']
+BODIES = [(None, None), ('i', [7]), ('(ii)', [[1, 2]]), ('ii', [1, 2]), ('s', ['txt']), ('ai', [[1, 2, 3]]),
+          # one value that is not a struct but has structs inside / around it; one-field structs; empty containers
+          ('a(si)', [[['a', 1], ['b', 2]]]), ('a(si)', [[]]), ('a{s(ii)}', [{'k': [1, 2]}]), ('aa(i)', [[[[1]], []]]),
+          ('(i)', [[5]]), ('((i))', [[[5]]]), ('a{sv}', [{'k': 1}]), ('v', [[1, 2]]), ('av', [[1, 'x']]), ('ai', [[]]),
+          ('a(i)i', [[[1]], 2]), ('(i)(i)', [[1], [2]]), ('ay', [[1, 2]]), ('as', [[]])]
+RETSIGS = ['__nocheck__', '', 'i', 's', '(ii)', 'a(si)']
 
 
 def obligations(tier):
